@@ -18,11 +18,18 @@ def explore(res: List[Dict[str, Any]], jobs: int, workers: int = 1) -> Dict[str,
     results = tlc.run_shards("Walk", CFG, envs, jobs=jobs, workers=workers, timeout=3000)
     tlc.require_ok(results, "Walk")
     out = {"states": 0, "generated": 0, "viol": [], "depth": 0}
+    # large hierarchies: one file per shard, explored one after the other with many TLC workers
+    for r in res:
+        if r.get("heavy_path"):
+            tr = tlc.run("Walk", CFG, {"CASES": r["heavy_path"]}, workers=jobs, timeout=3000, heap="4g", tag="walk-heavy")
+            tlc.require_ok([tr], "Walk (heavy)")
+            live.append({"summary": [dict(s, case=s["heavy"]) for s in r["summary"] if s.get("heavy")], "shard": r["shard"]})
+            results.append(tr)
     for r, tr in zip(live, results):
         out["states"] += tr.distinct
         out["generated"] += tr.generated
         out["depth"] = max(out["depth"], tr.depth)
-        bycase = {s["case"]: s for s in r["summary"] if s.get("build") == "ok"}
+        bycase = {s["case"]: s for s in r["summary"] if s.get("build") == "ok" and s["case"]}
         expect_init = 2 * sum(len_stages(s) for s in bycase.values())
         if tr.distinct < expect_init:
             raise tlc.MachineryError("Walk explored %d states, fewer than the %d initial states expected" % (tr.distinct, expect_init))
